@@ -27,6 +27,7 @@ type Nested struct {
 type Emb struct {
 	EmbA int
 	EmbS string
+	M    map[string]int // shadowed by CfgCore.M: hidden from reflect.VisibleFields, reachable as cfg.Emb.M (set by the defaults only)
 }
 
 type label struct{ L string }
@@ -362,6 +363,7 @@ type Part struct {
 	PNN       *int                `json:"pn_n,omitempty"`
 	EmbA      *int                `json:"emb_a,omitempty"`
 	EmbS      *string             `json:"emb_s,omitempty"`
+	EmbM      map[string]int      `json:"emb_m,omitempty"` // defaults only
 	After     *int                `json:"after,omitempty"`
 	Iface     *string             `json:"iface,omitempty"`
 	BadIface  bool                `json:"bad_iface,omitempty"` // ill-typed value: stacking fails
@@ -778,6 +780,9 @@ func defaultsFrom(p *Part) *CfgCore {
 	}
 	if p.EmbS != nil {
 		c.EmbS = *p.EmbS
+	}
+	if p.EmbM != nil {
+		c.Emb.M = cloneM(p.EmbM)
 	}
 	if p.After != nil {
 		c.After = *p.After
